@@ -47,6 +47,10 @@ func (g *Generator) makeJson() {
 		if f.isShadowed || f.isEmbeded {
 			continue
 		}
+		if f.jsonTag == "-" {
+			//encoding/json ignores the field: keep it out of the generated JSON code as well
+			continue
+		}
 
 		jsonTag := f.JSONTag()
 		if !f.HasJSONTag() {
